@@ -185,7 +185,10 @@ def gen_spec(rng, kind=None, n=None, rkind=None, tref_mode=None):
         tref = lo
     elif tref_mode == 'hi':
         tref = hi
-    return {'kind': kind, 'href': href, 'sref': sref, 'pts': L.shuffled(rng, pts), 'tref': tref, 'range': r}
+    spec = {'kind': kind, 'href': href, 'sref': sref, 'pts': L.shuffled(rng, pts), 'tref': tref, 'range': r}
+    if kind != 'raw' and rng.random() < 0.3:
+        spec['via_update'] = True      # reached in two merge steps (narrower range and other Cp values first)
+    return spec
 
 
 def singles(ctx, batch, n):
